@@ -4,3 +4,4 @@ import Driver.Wrappers
 import Driver.Replay
 import Driver.Batching
 import Driver.OnPolicy
+import Driver.OffPolicy
